@@ -235,7 +235,7 @@ def random_case(rng: typing.Any) -> dict[str, typing.Any]:
     for i in range(nh):
         if client == "pool":
             to = rng.choice(["A", "A", "B", "A2"])
-            form = rng.choice(["path", "absolute", "absolute-default-port", "upper-host", "query"]) if to == "A" else "absolute"
+            form = rng.choice(["path", "absolute", "absolute-default-port", "upper-host", "query"]) if to == "A" else rng.choice(["absolute", "absolute", "scheme-relative"])
         else:
             to = rng.choice(["A", "B", "C", "A", "A2", "E", "D"])
             form = rng.choice(c05.FORMS)
@@ -304,7 +304,7 @@ def run_shard(ctx: Ctx, rec: Recorder) -> None:
                         rec.case(["custom", strip, at, shape, key, prefix_same_origin_hop])
                         run_case(rec, case)
     # bare pool
-    for to, form in (("B", "absolute"), ("A2", "absolute"), ("C", "absolute"), ("A", "absolute"), ("A", "absolute-default-port")):
+    for to, form in (("B", "absolute"), ("A2", "absolute"), ("C", "absolute"), ("A", "absolute"), ("A", "absolute-default-port"), ("B", "scheme-relative"), ("A2", "scheme-relative"), ("A", "scheme-relative")):  # scheme-relative: '//host:port/path' names a host of its own
         for code in c05.CODES:
             idx += 1
             if not ctx.mine(idx):
